@@ -1784,3 +1784,39 @@ V("C30-sessions-cache-reset-keeps-positives","C30","internal/sessions/cache.go",
 			ch.cache.Remove(k)
 		}
 	}""",expect="silent")
+MD="pkg/core/object/metadata.go"
+V("C03-revert-fix-other-kind-matched-on-key","C03",MD,"""				if IsIntegerSearchOp(mch) != intPrimMatcher {
+					// the key holds the value in the form of the primary filter's
+					// kind only (plain or integer), the filter of the other kind
+					// is applied to the attribute itself below
+					continue
+				}
+""","",rule="C03.R9",more=[{"file":MD,"old":"			if !idIter && (i == 0 || fs[i].Header() == fs[0].Header() && IsIntegerSearchOp(fs[i].Operation()) == intPrimMatcher) { // already checked","new":"			if !idIter && (i == 0 || fs[i].Header() == fs[0].Header()) { // already checked"}])
+V("C03-same-kind-test-eq-form","C03",MD,"""				if IsIntegerSearchOp(mch) != intPrimMatcher {
+					// the key holds the value in the form of the primary filter's
+					// kind only (plain or integer), the filter of the other kind
+					// is applied to the attribute itself below
+					continue
+				}
+				var matches bool
+				if IsIntegerSearchOp(mch) {
+					matches = fs[i].AutoMatch || intBytesMatch(primDBVal, mch, fs[i].Raw)
+				} else {""","""				sameKind := IsIntegerSearchOp(mch) == intPrimMatcher
+				if !sameKind {
+					continue
+				}
+				var matches bool
+				if IsIntegerSearchOp(mch) {
+					matches = fs[i].AutoMatch || intBytesMatch(primDBVal, mch, fs[i].Raw)
+				} else {""",expect="silent")
+FH="pkg/local_object_storage/blobstor/fstree/head.go"
+V("C10-revert-fix-window-behind-buffer","C10",FH,"""			if offset+objectwire.NonPayloadFieldsBufferLength > len(buf) {
+				// the entry starts too close to the buffer end for the
+				// whole window to fit behind it
+				n = copy(buf, buf[offset:n])
+				offset = 0
+			}
+""","",rule="C10.R5")
+V("C10-window-check-off-by-a-prefix","C10",FH,"""			if offset+objectwire.NonPayloadFieldsBufferLength > len(buf) {""","""			if offset+objectwire.NonPayloadFieldsBufferLength-combinedDataOff > len(buf) {""",rule="C10.R5")
+V("C10-window-always-rebased","C10",FH,"""			if offset+objectwire.NonPayloadFieldsBufferLength > len(buf) {""","""			if offset > 0 {""",expect="silent")
+V("C10-decoder-reads-callers-buffer","C10",FH,"bytes.NewReader(slices.Clone(initial))","bytes.NewReader(initial)",rule="C10.R4",more=[{"file":FH,"old":'	"slices"\n',"new":""}])
